@@ -41,7 +41,7 @@ func c18Loop(m *vk.M, idx *int, n int, body func(i, procs int) bool) bool {
 	return true
 }
 
-const c18RuleFlight = "seeded concurrent histories (2-64 goroutines, 1-3 keys, random yields/spins/sleeps in and around callbacks, GOMAXPROCS 1/2/4/16): SingleFlight (executions of a key never overlap; every result is that of an execution performed by an overlapping call; DoEx fresh <=> executed), LockedCalls (every call executes exactly once, own result, executions of a key never overlap), ResourceManager (<=1 resource per key, same instance for all callers, Close closes each exactly once), ManagedResource (generate never concurrent; a resource marked broken is never returned by a later Take); non-trivial = a call was served by another call's execution / same-key calls overlapped / a Get was served without creating / a regeneration happened"
+const c18RuleFlight = "seeded concurrent histories (2-64 goroutines, 1-3 keys, random yields/spins/sleeps in and around callbacks, GOMAXPROCS 1/2/4/16): SingleFlight (executions of a key never overlap; every result is that of an execution performed by an overlapping call; DoEx fresh <=> executed), LockedCalls (every call executes exactly once, own result, executions of a key never overlap), ResourceManager (<=1 resource per key, same instance for all callers, Close closes each exactly once), ManagedResource (generate never concurrent; a resource marked broken is never returned by a later Take; a resource is replaced only after MarkBroken was called with that very resource — random scripts plus lock-step rounds of MarkBroken(held)+Take from 2-8 goroutines); half of the scenarios contain panicking callbacks / create / generate functions recovered by the calling goroutine (waiters of a panicked flight return, later calls execute afresh; a locked call still parked 25 s after a panicked predecessor of its key returned is a violation); non-trivial = a call was served by another call's execution / same-key calls overlapped / a Get was served without creating / a regeneration happened"
 
 func c18Flight(t *testing.T, race bool) {
 	m := vk.New(t, "C18", c18RuleFlight)
@@ -65,6 +65,13 @@ func c18Flight(t *testing.T, race bool) {
 	}) && c18Loop(m, &idx, c18N(300, 4500, race), func(i, procs int) bool {
 		sc := c18GenMR(r)
 		sc.Procs = procs
+		return !m.Only(i) || c18RunMR(m, i, sc)
+	}) && c18Loop(m, &idx, c18N(48, 720, race), func(i, procs int) bool {
+		sc := c18GenMRRounds(r)
+		sc.Procs = procs
+		if race { // spinning barriers are slow under the race detector
+			sc.Rounds = 40 + sc.Rounds/4
+		}
 		return !m.Only(i) || c18RunMR(m, i, sc)
 	})
 	if !ok {
